@@ -371,3 +371,115 @@ Lemma parse_pes_header_gen : same_on_bytes parse_pes_header parsePESHeader.
 Proof. exact (sim_point _ _ parse_pes_header_sim). Qed.
 Lemma parse_pes_data_gen : same_on_bytes parse_pes_data parsePESData.
 Proof. exact (sim_point _ _ parse_pes_data_sim). Qed.
+
+(* ---------------- the whole packet ---------------- *)
+
+(* the bytes of the iterator are never changed *)
+Definition pres {A} (m : IM A) : Prop := forall i a i', m i = Ok (a, i') -> ibs i' = ibs i.
+
+Lemma pres_bind {A B} (m : IM A) (f : A -> IM B) : pres m -> (forall a, pres (f a)) -> pres (ibind m f).
+Proof.
+  intros Hm Hf i b i'. unfold ibind. destruct (m i) as [[a i1]|c|] eqn:E; try discriminate.
+  intros H. rewrite (Hf a i1 b i' H). apply (Hm i a i1 E).
+Qed.
+Lemma pres_ret {A} (a : A) : pres (iret a).
+Proof. intros i b i' H. inversion H. reflexivity. Qed.
+Lemma pres_err {A} c : pres (@ierr A c).
+Proof. intros i b i' H. discriminate. Qed.
+Lemma pres_if {A} (c : bool) (m n : IM A) : pres m -> pres n -> pres (if c then m else n).
+Proof. destruct c; auto. Qed.
+Lemma pres_next_byte : pres next_byte.
+Proof. intros i b i' H. apply next_byte_ok in H. tauto. Qed.
+Lemma pres_next_bytes n : pres (next_bytes n).
+Proof. intros i b i' H. apply next_bytes_ok in H. tauto. Qed.
+Lemma pres_next_bytes_nocopy n : pres (next_bytes_nocopy n).
+Proof. exact (pres_next_bytes n). Qed.
+Lemma pres_iskip n : pres (iskip n).
+Proof. intros i b i' H. inversion H. reflexivity. Qed.
+Lemma pres_iseek n : pres (iseek n).
+Proof. intros i b i' H. inversion H. reflexivity. Qed.
+Lemma pres_ioffset : pres ioffset.
+Proof. intros i b i' H. inversion H. reflexivity. Qed.
+Lemma pres_ilength : pres ilength.
+Proof. intros i b i' H. inversion H. reflexivity. Qed.
+
+Ltac pres_auto :=
+  repeat match goal with
+  | |- pres (ibind _ _) => apply pres_bind; [|intros]
+  | |- pres (iret _) => apply pres_ret
+  | |- pres (ierr _) => apply pres_err
+  | |- pres (if _ then _ else _) => apply pres_if
+  | |- pres (when _ _ _) => unfold when
+  | |- pres (let '(_, _) := ?p in _) => destruct p
+  | |- pres next_byte => apply pres_next_byte
+  | |- pres (next_bytes _) => apply pres_next_bytes
+  | |- pres (next_bytes_nocopy _) => apply pres_next_bytes_nocopy
+  | |- pres (iskip _) => apply pres_iskip
+  | |- pres (iseek _) => apply pres_iseek
+  | |- pres ioffset => apply pres_ioffset
+  | |- pres ilength => apply pres_ilength
+  | |- pres parse_pcr => unfold parse_pcr
+  | |- pres parse_pts_or_dts => unfold parse_pts_or_dts
+  | |- pres parse_af_extension => unfold parse_af_extension
+  end.
+
+Lemma pres_parse_packet_adaptation_field : pres parse_packet_adaptation_field.
+Proof. unfold parse_packet_adaptation_field. pres_auto. Qed.
+
+Lemma sim_of_point {A} (m1 m2 : IM A) : (forall i, okI i -> m1 i = m2 i) -> pres m1 -> sim eq m1 m2.
+Proof.
+  intros H Hp i Hi. rewrite <- (H i Hi). destruct (m1 i) as [[a i']|c|] eqn:E; auto.
+  repeat split. apply (Hp i a i' E).
+Qed.
+
+Lemma parse_packet_adaptation_field_sim : sim eq parse_packet_adaptation_field parsePacketAdaptationField.
+Proof. apply sim_of_point; [exact parse_packet_adaptation_field_gen|exact pres_parse_packet_adaptation_field]. Qed.
+
+Lemma sim_if_push_l {A2 B C} (R : C -> A2 -> Prop) m2 (c : bool) (m n : IM B) (g : B -> IM C) :
+  sim R (if c then ibind m g else ibind n g) m2 -> sim R (ibind (if c then m else n) g) m2.
+Proof. destruct c; auto. Qed.
+
+Lemma sim_err_bind_l {A2 B C} (R : C -> A2 -> Prop) c (g : B -> IM C) : sim R (ibind (ierr c) g) (ierr c).
+Proof. intros i Hi. reflexivity. Qed.
+
+Lemma sim_ret_bind_l {A2 B C} (R : C -> A2 -> Prop) m2 (a : B) (g : B -> IM C) :
+  sim R (g a) m2 -> sim R (ibind (iret a) g) m2.
+Proof. intros H i Hi. exact (H i Hi). Qed.
+
+Ltac pk_norm := cbn beta iota zeta delta [fst snd odflt zero_Packet
+  set_Packet_AdaptationField set_Packet_Header set_Packet_Payload Packet_AdaptationField Packet_Header Packet_Payload].
+Ltac pk_cbv := cbv beta iota zeta delta [fst snd zero_Packet
+  set_Packet_AdaptationField set_Packet_Header set_Packet_Payload Packet_AdaptationField Packet_Header Packet_Payload].
+
+Lemma parse_packet_sim (sk : option (Packet -> bool)) :
+  sim eq (parse_packet (match sk with Some f => f | None => no_skip end)) (parsePacket sk).
+Proof.
+  unfold parse_packet, parse_packet_head, parse_packet_tail, parsePacket. pk_norm.
+  apply sim_assoc_l. eapply sim_bind; [apply sim_next_byte|]. intros b ? (<- & Hb). cbv beta.
+  apply sim_if_push_l. change C_syncByte with syncByte. apply sim_if; [apply sim_err_bind_l|].
+  apply sim_assoc_l. eapply sim_bind; [apply sim_ilength|]. intros len ? <-. cbv beta.
+  apply sim_assoc_l. eapply sim_bind; [apply sim_iseek|]. intros _ _ _.
+  apply sim_assoc_l. eapply sim_bind; [apply sim_ioffset|]. intros os ? <-. cbv beta.
+  apply sim_assoc_l. eapply sim_bind; [apply parse_packet_header_sim|]. intros h ? <-. cbv beta. pk_norm.
+  apply sim_assoc_l.
+  eapply (sim_bind (fun af p => p = set_Packet_AdaptationField af
+            {| Packet_AdaptationField := None; Packet_Header := h; Packet_Payload := [] |})).
+  { apply sim_if.
+    - eapply sim_bind; [apply parse_packet_adaptation_field_sim|]. intros a ? <-. apply sim_ret. reflexivity.
+    - apply sim_ret. reflexivity. }
+  cbv beta. intros af p ->. apply sim_ret_bind_l. pk_cbv.
+  assert (Hsk : (match sk with Some f_ => f_ {| Packet_AdaptationField := af; Packet_Header := h; Packet_Payload := [] |} | None => false end)
+              = (match sk with Some f => f | None => no_skip end) {| Packet_AdaptationField := af; Packet_Header := h; Packet_Payload := [] |})
+    by (destruct sk; reflexivity).
+  rewrite Hsk. apply sim_if; [apply sim_err|].
+  apply sim_bind_ret_r. apply sim_if.
+  - eapply sim_bind; [apply sim_iseek|]. intros _ _ _.
+    eapply sim_bind; [apply sim_idump|]. intros pl ? (<- & _). apply sim_ret. reflexivity.
+  - apply sim_ret. reflexivity.
+Qed.
+
+Lemma parse_packet_gen (skip : Packet -> bool) : same_on_bytes (parse_packet skip) (parsePacket (Some skip)).
+Proof. exact (sim_point _ _ (parse_packet_sim (Some skip))). Qed.
+
+Lemma parse_packet_no_skip_gen : same_on_bytes (parse_packet no_skip) (parsePacket None).
+Proof. exact (sim_point _ _ (parse_packet_sim None)). Qed.
